@@ -13,7 +13,7 @@ order versus dictionary order.
 import z3
 
 from pyvc import ops
-from pyvc.values import Ext, NoOp, PyRaise, Unsupported, VBound, VClass, VDict, VList, VObj, VSet, stub
+from pyvc.values import Ext, NoOp, PyRaise, Unsupported, VBound, VClass, VDict, VList, VObj, VSet, VSlice, stub
 
 GEN = "pymoca.backends.casadi.generator"
 TREE = "pymoca.tree"
@@ -489,10 +489,99 @@ def h_exit_class_composed(eng):
               derivatives=[getattr(d, "label", "?") for d in got_ders])
 
 
+def h_get_derivative(eng):
+    """Generator.get_derivative, symbol cases: the derivative of a variable is ONE symbol per variable name, named der(<name>), of the
+    variable's size and Modelica shape, kept in self.derivative and registered among the class's nodes; the derivative of an indexed
+    variable x[a:b:s] is the same slice of der(x); a constant has derivative 0.  (This is what makes der_states line up with states.)"""
+    modules(eng)
+    gen_mod = eng.load_module(GEN)
+    from .gen_common import new_generator
+    cas = eng.ext_modules["casadi"]
+    cas.attrs["OP_GETNONZEROS"] = 77
+    made = []
+
+    class DS(MXSym):
+        def __init__(self, label, kind="sym", dep=None, info=None, size=(3, 1)):
+            MXSym.__init__(self, label)
+            self.kind, self.dep_, self.info_, self.size_ = kind, dep, info, size
+            self.attrs = {}
+
+        def sym_getattr(self, eng, name):
+            if name == "is_constant":
+                return stub(lambda eng: self.kind == "const")
+            if name == "is_symbolic":
+                return stub(lambda eng: self.kind == "sym")
+            if name == "is_op":
+                return stub(lambda eng, code: self.kind == "getnz" and code == 77)
+            if name == "dep":
+                return stub(lambda eng, *a: self.dep_)
+            if name == "info":
+                return stub(lambda eng: VDict([("slice", VDict(list(self.info_.items())))]))
+            if name == "size":
+                return stub(lambda eng: self.size_)
+            if name in self.attrs:
+                return self.attrs[name]
+            return MXSym.sym_getattr(self, eng, name)
+
+        def sym_setattr(self, eng, name, value):
+            self.attrs[name] = value
+
+        def sym_getitem(self, eng, key):
+            return DS("%s[..]" % self.label, "slice-of", dep=self, info=key)
+
+        def sym_eq(self, eng, other):
+            return self is other
+    mx_cls = cas.attrs["MX"]
+    mx_cls.constructor = lambda eng, c, a, k: a[0]
+
+    def new_mx(eng, args, kw):
+        d = DS(args[0], size=args[1] if len(args) > 1 else (1, 1))
+        made.append(d)
+        return d
+    eng.call_contracts["_new_mx"] = new_mx
+    case = ["constant", "symbol", "indexed"][eng.choice(3)]
+    cached_before = bool(eng.choice(2))
+    eng.input("argument", case)
+    eng.input("derivative_symbol_exists_already", cached_before)
+    klass = VObj(VClass("Class"), {"name": "M"})
+    x = DS("x")
+    x.attrs["_modelica_shape"] = ((3,),)
+    nodes = VDict([(klass, VDict([("x", x)]))])
+    derivative = VDict()
+    pre = None
+    if cached_before:
+        pre = DS("der(x)")
+        derivative.keys.append("x")
+        derivative.vals.append(pre)
+    g = new_generator(eng, gen_mod, {"derivative": derivative, "nodes": nodes, "entered_classes": VList([klass]), "for_loops": VList([]), "src": VDict()})
+    f = eng.find_function(GEN, "Generator.get_derivative")
+    arg = {"constant": DS("5", "const"), "symbol": x, "indexed": DS("x[1:3]", "getnz", dep=x, info={"start": 1, "stop": 3, "step": 1})}[case]
+    r1 = eng.call(VBound(f, g), [arg], {})
+    r2 = eng.call(VBound(f, g), [arg], {})
+    eng.cover("der." + case)
+    if case == "constant":
+        eng.prove("der.constant_has_derivative_zero", z3.BoolVal(r1 == 0 and r2 == 0 and not made and derivative.keys == (["x"] if cached_before else [])))
+        return
+    dsym = derivative.vals[derivative.keys.index("x")] if "x" in derivative.keys else None
+    eng.prove("der.one_derivative_symbol_per_variable", z3.BoolVal(dsym is not None and derivative.keys == ["x"] and len(made) == (0 if cached_before else 1) and
+                                                                (dsym is pre if cached_before else dsym is made[0])))
+    if not cached_before and dsym is not None:
+        eng.prove("der.new_symbol_is_named_sized_and_shaped_after_its_variable", z3.BoolVal(dsym.label == "der(x)" and dsym.size_ == (3, 1) and dsym.attrs.get("_modelica_shape") == ((3,),)))
+        kn = nodes.vals[0]
+        eng.prove("der.new_symbol_registered_in_the_class", z3.BoolVal("der(x)" in kn.keys and kn.vals[kn.keys.index("der(x)")] is dsym))
+    if case == "symbol":
+        eng.prove("der.derivative_of_a_variable_is_its_derivative_symbol", z3.BoolVal(r1 is dsym and r2 is dsym))
+    else:
+        ok = all(isinstance(r, DS) and r.kind == "slice-of" and r.dep_ is dsym and isinstance(r.info_, VSlice) and
+                 (r.info_.start, r.info_.stop, r.info_.step) == (1, 3, 1) for r in (r1, r2))
+        eng.prove("der.derivative_of_an_indexed_variable_is_the_same_slice_of_its_derivative_symbol", z3.BoolVal(bool(ok)))
+
+
 HARNESSES = [("Generator.exitClass", h_exit_class), ("Generator._ast_symbols_to_variables", h_symbols_to_variables),
              ("StateAnnotator", h_state_annotator), ("instances own their prefix lists (deepcopy of ast.Symbol, then the real annotator)", h_instances_own_their_prefix_lists),
-             ("Generator.exitClass over the real _ast_symbols_to_variables, arbitrary derivative cache", h_exit_class_composed)]
-EXPECTED_COVER = {"class.done", "vars.done", "annot.enterExpression", "annot.exitExpression", "annot.exitComponentRef", "own.copied", "composed.done"}
+             ("Generator.exitClass over the real _ast_symbols_to_variables, arbitrary derivative cache", h_exit_class_composed),
+             ("Generator.get_derivative: constants, variables, indexed variables", h_get_derivative)]
+EXPECTED_COVER = {"class.done", "vars.done", "annot.enterExpression", "annot.exitExpression", "annot.exitComponentRef", "own.copied", "composed.done", "der.constant", "der.symbol", "der.indexed"}
 BOUNDED = True
 LEVEL = "proof"
 TRUSTED = ["pyvc VC generator", "z3 5.1.0", "sorted() is a stable permutation ordered by the key",
